@@ -114,6 +114,48 @@ func c09Scenario(kinds []string, bound int) *world.Scenario {
 	return sc
 }
 
+// c09Flood: starvation in logical form. The client's socket is topped up after every read of the proxy, so from the
+// proxy's point of view there is always more input. Per loop round (one readiness event for that client) the proxy may
+// take in a bounded amount of it (<= 4 read buffers; the pinned code takes one) and must then return to the poller, where
+// completed replies are served; a loop that keeps reading while input is available starves every reply for as long as the
+// sender keeps going. At the end every request is answered in order.
+func c09Flood(shape string, n int, bound int) *world.Scenario {
+	sc := &world.Scenario{Nodes: T3m(), Bound: bound, Horizon: 3000, Family: "flood", ReadCap: 64, WriteCap: 64}
+	var reqs []Req
+	for j := 0; j < n; j++ {
+		switch {
+		case shape == "get+ping" && j%3 == 2:
+			reqs = append(reqs, PingReq())
+		case shape == "mget" && j%2 == 1:
+			reqs = append(reqs, MGetReq(keysA[j%12], keysB[j%12]))
+		default:
+			reqs = append(reqs, GetReq(keysA[j%12]))
+		}
+	}
+	cs := ClientOf(reqs, false)
+	cs.Flood = true
+	sc.Clients = []world.ClientSpec{cs}
+	sc.Name = fmt.Sprintf("C09/flood/%s/%dreqs/d%d", shape, n, bound)
+	rounds := 0
+	lastTotal := 0
+	sc.AfterBoot = func(w *world.World) { rounds, lastTotal = 0, 0 }
+	sc.Quiescent = func(w *world.World) *world.Violation {
+		if len(w.Clients) == 0 || w.Clients[0].Sock == nil {
+			return nil
+		}
+		t := w.Clients[0].Sock.RxTotal
+		if took := t - lastTotal; took > 4*w.Opts.ReadBufferCap {
+			return &world.Violation{Sig: "loop-monopolised-by-sender", Msg: fmt.Sprintf(
+				"in ONE loop round the proxy took in %d bytes of the never-pausing client (read buffer %d bytes) before returning to the poller; while it does so no completed reply is delivered (client has %d replies, %d requests taken in)", took, w.Opts.ReadBufferCap, w.Clients[0].NReplies, t/22)}
+		}
+		lastTotal = t
+		rounds++
+		return nil
+	}
+	sc.Check = func(w *world.World) []world.Violation { return CheckStreams(w, StreamOpts{}) }
+	return sc
+}
+
 func c09Scenarios(tier string) []*world.Scenario {
 	var out []*world.Scenario
 	alpha := []string{"FA", "FB", "M2"}
@@ -141,6 +183,14 @@ func c09Scenarios(tier string) []*world.Scenario {
 			return inner(w)
 		}
 		out = append(out, sc)
+	}
+	// a sender that never pauses (its socket always holds at least two read buffers' worth until 60 requests are out)
+	for _, shape := range []string{"get", "get+ping", "mget"} {
+		b := 2
+		if tier == "thorough" {
+			b = 3
+		}
+		out = append(out, c09Flood(shape, 60, b))
 	}
 	for n := 2; n <= 4; n++ {
 		for _, p := range pipelines(alpha, n) {
@@ -433,9 +483,9 @@ func c07Scenarios(tier string) []*world.Scenario {
 
 func init() {
 	register(&Check{ID: "C09", Level: "model_checking",
-		Rule:      "one open-loop client sending 2-4 forwarded requests (GET@A, GET@B, MGET split A+B) in separate chunks, also as a slow reader whose flushes meet EAGAIN / short writes; every interleaving of client reads, task runs and backend reply deliveries within the bound; the invariant 'replies of requests 1..m read by the proxy => client has >= m replies' is evaluated at EVERY quiescent point (epoll_wait entry); non-trivial = >= 1 deviation from the synchronous schedule; distinct = distinct observable outcomes",
+		Rule:      "one open-loop client sending 2-4 forwarded requests (GET@A, GET@B, MGET split A+B) in separate chunks, also as a slow reader whose flushes meet EAGAIN / short writes; every interleaving of client reads, task runs and backend reply deliveries within the bound; the invariant 'replies of requests 1..m read by the proxy => client has >= m replies' is evaluated at EVERY quiescent point (epoll_wait entry); a never-pausing sender (socket topped up after every read of the proxy until 60 requests are out; GET / GET+PING / split MGET): per loop round the proxy takes in at most 4 read buffers of it before it returns to the poller, and all 60 replies arrive in order; non-trivial = >= 1 deviation from the synchronous schedule; distinct = distinct observable outcomes",
 		Scenarios: c09Scenarios, BudgetQuick: 90, BudgetThorough: 1200,
-		Assumptions: []string{"'promptly' is decided in logical time: before the event loop next blocks", "simulated kernel; stateless node model"}})
+		Assumptions: []string{"'promptly' is decided in logical time: before the event loop next blocks", "'not starved' is decided in logical form: bounded intake per loop round from a sender that never pauses (the poller, which serves completed replies, is reached again after <= 4 read buffers)", "simulated kernel; stateless node model"}})
 	register(&Check{ID: "C10", Level: "model_checking",
 		Rule:      "1-3 clients whose pipelines (SET/GET/MSET/MGET/DEL on keys of one node, incl. two fragments of one request on the same node) all land on node A's single connection; a slow node whose backlog is drained in pieces; another client closed for invalid input in the loop batch that routed its valid request; stateful node model; every interleaving within the bound; oracle: per (client,node) command order = send order, and reads observe the preceding writes; non-trivial = >= 1 deviation; distinct = observable outcomes",
 		Scenarios: c10Scenarios, BudgetQuick: 90, BudgetThorough: 1200,
